@@ -1357,6 +1357,9 @@ pub fn literal_leaves() -> Vec<Leaf> {
         lit("Total", "name-plain", LitKind::Name),
         lit("Q1_Sales", "name-reflike", LitKind::Name),
         lit("{1,2;3,4}", "array-const", LitKind::Array),
+        // text outside ASCII (2-, 3- and 4-byte characters): byte offsets and character offsets differ behind it
+        lit("\"gr\u{f6}\u{df}er\"", "str-non-ascii", LitKind::Str),
+        lit("\"\u{30c7}\u{30fc}\u{30bf}\u{1F600}\"", "str-non-ascii", LitKind::Str),
     ]
 }
 pub fn bracket_leaves() -> Vec<Leaf> {
